@@ -99,6 +99,8 @@ def _verify_case(repo, reg, c, ci, case, canary):
             E.ob_prefix = prefix
             E.stmt_hooks = hooks
             E.raises_decl = c.raises
+            E.bvw = c.bitvec
+            E.merge_ifs = bool(getattr(c, "merge_ifs", False))
             outcome = _run_path(E, c, fnode, cls, params, canary)
             work.extend(E.pending)
             if outcome is not None:
